@@ -365,14 +365,14 @@ class C04(Check):
     def run(self, ctx):
         cu()
         rng = ctx.sub_rng('c04')
-        self.run_corpus(ctx)
-        self.corr_upto(ctx, rng)
+        ctx.phase(self.run_corpus, ctx)
+        ctx.phase(self.corr_upto, ctx, rng)
         sheets = [G.gen_sheet(rng) for _ in range(ctx.n(160, 3000))]
-        self.corr_and_oracle_injection(ctx, rng, sheets)
-        self.corr_and_oracle_truncation(ctx, rng, sheets)
-        self.corr_malformed(ctx, rng, sheets)
-        self.corr_decl_blocks(ctx, rng)
-        self.corr_unknown(ctx, rng)
+        ctx.phase(self.corr_and_oracle_injection, ctx, rng, sheets)
+        ctx.phase(self.corr_and_oracle_truncation, ctx, rng, sheets)
+        ctx.phase(self.corr_malformed, ctx, rng, sheets)
+        ctx.phase(self.corr_decl_blocks, ctx, rng)
+        ctx.phase(self.corr_unknown, ctx, rng)
 
     def search(self, ctx):
         """an obligation or the correspondence broke and the quick oracle found nothing: the two
@@ -380,9 +380,9 @@ class C04(Check):
         ctx.search_mode = True
         rng = ctx.sub_rng('c04-search')
         sheets = [G.gen_sheet(rng) for _ in range(1000)]
-        self.corr_and_oracle_injection(ctx, rng, sheets)
+        ctx.phase(self.corr_and_oracle_injection, ctx, rng, sheets)
         if not ctx.violations:
-            self.corr_and_oracle_truncation(ctx, rng, sheets)
+            ctx.phase(self.corr_and_oracle_truncation, ctx, rng, sheets)
 
     # -- corpus --------------------------------------------------------------------------------------
     def corpus(self, ctx):
